@@ -1,0 +1,103 @@
+//go:build verif
+
+// Contracts for package regattaserver (comment-only; compiled only with the build tag "verif",
+// read by /verif/engine). Properties C06, C11, C16.
+
+package regattaserver
+
+//@ import serrors "github.com/jamf/regatta/storage/errors"
+//@ import regattapb "github.com/jamf/regatta/regattapb"
+
+// gRPC codes used by the KV API
+//@ const cInvalidArgument = 3
+//@ const cNotFound = 5
+//@ const cFailedPrecondition = 9
+//@ const cUnimplemented = 12
+//@ const cUnavailable = 14
+
+// validity predicates transcribed from the property statement and proto/regatta.proto
+//@ pure func malformedRange(r *regattapb.RangeRequest) bool = r == nil || len(r.Table) == 0 || len(r.Key) == 0 || r.Limit < 0 || (r.KeysOnly && r.CountOnly)
+//@ pure func unsupportedRange(r *regattapb.RangeRequest) bool = r != nil && (r.MinModRevision > 0 || r.MaxModRevision > 0 || r.MinCreateRevision > 0 || r.MaxCreateRevision > 0)
+//@ pure func malformedPut(r *regattapb.PutRequest) bool = r == nil || len(r.Table) == 0 || len(r.Key) == 0
+//@ pure func malformedDelete(r *regattapb.DeleteRangeRequest) bool = r == nil || len(r.Table) == 0 || len(r.Key) == 0
+// nested transaction operations follow the same rules as the top-level calls
+//@ pure func validOp(o *regattapb.RequestOp) bool = o != nil && o.Request != nil && ((typeIs(o.Request, *regattapb.RequestOp_RequestRange) && asType(o.Request, *regattapb.RequestOp_RequestRange) != nil && asType(o.Request, *regattapb.RequestOp_RequestRange).RequestRange != nil && len(asType(o.Request, *regattapb.RequestOp_RequestRange).RequestRange.Key) > 0 && asType(o.Request, *regattapb.RequestOp_RequestRange).RequestRange.Limit >= 0 && !(asType(o.Request, *regattapb.RequestOp_RequestRange).RequestRange.KeysOnly && asType(o.Request, *regattapb.RequestOp_RequestRange).RequestRange.CountOnly)) || (typeIs(o.Request, *regattapb.RequestOp_RequestPut) && asType(o.Request, *regattapb.RequestOp_RequestPut) != nil && asType(o.Request, *regattapb.RequestOp_RequestPut).RequestPut != nil && len(asType(o.Request, *regattapb.RequestOp_RequestPut).RequestPut.Key) > 0) || (typeIs(o.Request, *regattapb.RequestOp_RequestDeleteRange) && asType(o.Request, *regattapb.RequestOp_RequestDeleteRange) != nil && asType(o.Request, *regattapb.RequestOp_RequestDeleteRange).RequestDeleteRange != nil && len(asType(o.Request, *regattapb.RequestOp_RequestDeleteRange).RequestDeleteRange.Key) > 0))
+//@ pure func malformedTxn(r *regattapb.TxnRequest) bool = r == nil || len(r.Table) == 0 || (exists j int :: 0 <= j && j < len(r.Success) && !validOp(r.Success[j])) || (exists j int :: 0 <= j && j < len(r.Failure) && !validOp(r.Failure[j])) || (exists j int :: 0 <= j && j < len(r.Compare) && (r.Compare[j] == nil || len(r.Compare[j].Key) == 0))
+
+// the storage behind the API: ghost count of calls (any call may change table state; a rejected
+// request must not reach it) - every method REQUIRES a request that passed the shape validation
+//@ ghostfield any.scalls Int
+//@ iface regattaserver.KVService.Range
+//@   assumed
+//@   params s, ctx, req
+//@   results resp, err
+//@   requires [C16.pre.range] !malformedRange(req) && !unsupportedRange(req)
+//@   ensures s.scalls == old(s.scalls) + 1 && (err == nil ==> resp != nil)
+//@   modifies s.scalls
+//@ iface regattaserver.KVService.IterateRange
+//@   assumed
+//@   params s, ctx, req
+//@   results resp, err
+//@   requires [C16.pre.iterate] !malformedRange(req) && !unsupportedRange(req)
+//@   ensures s.scalls == old(s.scalls) + 1
+//@   modifies s.scalls
+//@ iface regattaserver.KVService.Put
+//@   assumed
+//@   params s, ctx, req
+//@   results resp, err
+//@   requires [C16.pre.put] !malformedPut(req)
+//@   ensures s.scalls == old(s.scalls) + 1 && (err == nil ==> resp != nil)
+//@   modifies s.scalls
+//@ iface regattaserver.KVService.Delete
+//@   assumed
+//@   params s, ctx, req
+//@   results resp, err
+//@   requires [C16.pre.delete] !malformedDelete(req)
+//@   ensures s.scalls == old(s.scalls) + 1 && (err == nil ==> resp != nil)
+//@   modifies s.scalls
+//@ iface regattaserver.KVService.Txn
+//@   assumed
+//@   params s, ctx, req
+//@   results resp, err
+//@   requires [C16.pre.txn] !malformedTxn(req)
+//@   ensures s.scalls == old(s.scalls) + 1 && (err == nil ==> resp != nil)
+//@   modifies s.scalls
+
+//@ func errors.IsSafeToRetry
+//@   assumed
+//@   pure
+//@   params err
+
+// KVServer.Range: malformed => InvalidArgument, unsupported option => Unimplemented, in both cases the
+// storage is not called; storage errors map to NotFound / Unavailable / FailedPrecondition; a nil error
+// is returned only with the storage's own answer.
+//@ func (*KVServer).Range
+//@   results resp, err
+//@   requires s != nil && s.Storage != nil
+//@   ensures [C16.reject.range]   malformedRange(req) || unsupportedRange(req) ==> err != nil && s.Storage.scalls == old(s.Storage.scalls) && (codeOf(err) == cInvalidArgument || codeOf(err) == cUnimplemented)
+//@   ensures [C16.reject.invalid] malformedRange(req) && !unsupportedRange(req) ==> codeOf(err) == cInvalidArgument
+//@   ensures [C16.reject.unimpl]  unsupportedRange(req) && !malformedRange(req) ==> codeOf(err) == cUnimplemented
+//@   ensures [C16.codes.range]    err != nil ==> codeOf(err) == cInvalidArgument || codeOf(err) == cUnimplemented || codeOf(err) == cNotFound || codeOf(err) == cUnavailable || codeOf(err) == cFailedPrecondition
+//@   ensures [C16.once.range]     s.Storage.scalls <= old(s.Storage.scalls) + 1
+//@   modifies s.Storage.scalls
+
+//@ func (*KVServer).Put
+//@   results resp, err
+//@   requires s != nil && s.Storage != nil
+//@   ensures [C16.reject.put] malformedPut(req) ==> err != nil && codeOf(err) == cInvalidArgument && s.Storage.scalls == old(s.Storage.scalls)
+//@   ensures [C16.codes.put]  err != nil ==> codeOf(err) == cInvalidArgument || codeOf(err) == cNotFound || codeOf(err) == cUnavailable || codeOf(err) == cFailedPrecondition
+//@   modifies s.Storage.scalls
+
+//@ func (*KVServer).DeleteRange
+//@   results resp, err
+//@   requires s != nil && s.Storage != nil
+//@   ensures [C16.reject.delete] malformedDelete(req) ==> err != nil && codeOf(err) == cInvalidArgument && s.Storage.scalls == old(s.Storage.scalls)
+//@   ensures [C16.codes.delete]  err != nil ==> codeOf(err) == cInvalidArgument || codeOf(err) == cNotFound || codeOf(err) == cUnavailable || codeOf(err) == cFailedPrecondition
+//@   modifies s.Storage.scalls
+
+//@ func (*KVServer).Txn
+//@   results resp, err
+//@   requires s != nil && s.Storage != nil
+//@   ensures [C16.reject.txn] malformedTxn(req) ==> err != nil && codeOf(err) == cInvalidArgument && s.Storage.scalls == old(s.Storage.scalls)
+//@   ensures [C16.codes.txn]  err != nil ==> codeOf(err) == cInvalidArgument || codeOf(err) == cNotFound || codeOf(err) == cUnavailable || codeOf(err) == cFailedPrecondition
+//@   modifies s.Storage.scalls
